@@ -297,7 +297,7 @@ SplitOut guarded_split(const std::array<std::uint8_t, 32>& secret, std::uint8_t 
     const pid_t pid = fork();
     if (pid == 0) {
         close(fds[0]);
-        alarm(20);
+        alarm(180);
         std::vector<std::uint8_t> buf;
         try {
             const auto shares = crypto::Shamir::split(secret, t, n);
@@ -315,9 +315,27 @@ SplitOut guarded_split(const std::array<std::uint8_t, 32>& secret, std::uint8_t 
     std::vector<std::uint8_t> buf;
     const auto deadline = std::chrono::steady_clock::now();
     (void)deadline;
+    // "does not terminate" is decided on the child's consumed CPU time (a split is milliseconds of work; a loop that never
+    // ends burns CPU), not on wall time: on a loaded machine a forked sanitizer process can take seconds to get going
+    auto child_cpu_ms = [&]() -> long {
+        char path[64];
+        std::snprintf(path, sizeof path, "/proc/%d/stat", static_cast<int>(pid));
+        FILE* f = std::fopen(path, "r");
+        if (!f) return -1;
+        char line[1024];
+        const auto got = std::fread(line, 1, sizeof line - 1, f);
+        std::fclose(f);
+        line[got] = 0;
+        const char* rp = std::strrchr(line, ')');
+        if (!rp) return -1;
+        unsigned long ut = 0, stt = 0;
+        // fields after the command: state ppid pgrp session tty tpgid flags minflt cminflt majflt cmajflt utime stime
+        if (std::sscanf(rp + 1, " %*c %*d %*d %*d %*d %*d %*u %*u %*u %*u %*u %lu %lu", &ut, &stt) != 2) return -1;
+        return static_cast<long>((ut + stt) * 1000 / static_cast<unsigned long>(sysconf(_SC_CLK_TCK)));
+    };
     int waited_ms = 0;
-    bool eof = false;
-    while (waited_ms < 6000 && !eof) {
+    bool eof = false, starved = false;
+    while (!eof) {
         pollfd p{fds[0], POLLIN, 0};
         const int pr = poll(&p, 1, 100);
         if (pr > 0) {
@@ -326,9 +344,11 @@ SplitOut guarded_split(const std::array<std::uint8_t, 32>& secret, std::uint8_t 
             if (got <= 0) eof = true; else buf.insert(buf.end(), tmp, tmp + got);
         } else {
             waited_ms += 100;
+            if (child_cpu_ms() >= 8000) break;                       // eight CPU seconds in a split: it is not coming back
+            if (waited_ms >= 120000) { starved = true; break; }      // two minutes of wall time without the CPU budget used up
         }
     }
-    if (!eof) { kill(pid, SIGKILL); o.hang = true; }
+    if (!eof) { kill(pid, SIGKILL); if (starved) o.error = "harness:child-starved"; else o.hang = true; }
     close(fds[0]);
     int st = 0;
     waitpid(pid, &st, 0);
@@ -402,6 +422,7 @@ void c10_case(Ctx& c, Rng& r) {
     if (n == 255) c.note("split.n255");
     const auto desc = [&] { return J().kv("t", t).kv("n", n).kv("secret", hx::hexs(secret)); };
     if (so.hang) { c.violation("C10:split:does-not-terminate:n=" + std::to_string(n), desc().str()); c.sig(hx::mix(t, n)); return; }
+    if (!so.ok && so.error == "harness:child-starved") { c.violation("harness:C10:split-child-got-no-cpu-for-two-minutes", desc().str()); c.sig(hx::mix(t, n)); return; }
     if (!so.ok) { c.violation("C10:split:fails-for-valid-parameters", desc().kv("error", so.error).str()); c.sig(hx::mix(t, n)); return; }
     const auto& shares = so.shares;
     if (shares.size() != static_cast<std::size_t>(n)) { c.violation("C10:split:wrong-share-count", desc().kv("got", shares.size()).str()); return; }
